@@ -197,6 +197,11 @@ def gen_configs(seed: int, n: int, nx_max: int, families: str = "all", f32_table
         sched = "none"
         if kind == "single":
             sched = str(rng.choice(["none", "none", "const", "stepdown", "arbitrary", "updown"]))
+        if i % 17 == 11 and kind == "single" and "ideal_csv" not in tab and nx <= 100:
+            # drawdown to exactly the first pressure of the table, carried on until the profile has relaxed onto it (the profile
+            # then sits within rounding of the end of the table: lookups just outside it are part of every such run)
+            pf, grid, tend = float(p[0]), str(rng.choice(["geometric", "quadratic", "huge"])), float(10 ** rng.uniform(1.0, 2.5))
+            sched = "none"
         c = {"kind": kind, "table": tab, "nx": nx, "pf": pf, "pi": pi, "grid": grid, "nt": nt, "tend": tend,
              "sched": sched, "seed": int(rng.integers(0, 2**31 - 1))}
         if rng.random() < 0.12:
